@@ -15,7 +15,15 @@ from vf import core, engine, pool
 
 SIZE_WORDS = re.compile(r"too (large|many|long|big)|limit|exceed", re.I)
 
-OPERAND_NS = [1, 2, 127, 128, 200, 254, 255, 256, 257, 258, 300, 511, 512, 513, 1000]
+def _dense():
+    ns = set([1, 2, 3, 64, 100, 200, 300, 400, 1000, 1500, 2000])
+    for centre in (128, 255, 256, 510, 512, 765, 768, 1020, 1024, 1275, 1280, 2040, 2048):
+        ns.update(range(centre - 3, centre + 4))
+    return sorted(n for n in ns if n > 0)
+
+
+OPERAND_NS = _dense()
+OPERAND_NS_QUICK = [n for n in OPERAND_NS if n <= 3 or 125 <= n <= 131 or 252 <= n <= 259 or 507 <= n <= 515 or 762 <= n <= 771 or 1017 <= n <= 1027 or n in (300, 1000)]
 BYTE_BOUNDS_QUICK = [256, 65536]
 BYTE_BOUNDS_THOROUGH = [256, 32768, 65536, 70000, 131072, 200000]
 
@@ -44,6 +52,45 @@ def sh_array(n):
     els = ", ".join(str(i + 1) for i in range(n))
     return ("var a = [%s]; var s = 0; for (var i = 0; i < a.length; i++) s = s + a[i]; var r = a.length * 1000000 + s * 1 + a[%d] * 0;" % (els, n - 1),
             "r", float(n * 1000000 + n * (n + 1) // 2), False)
+
+
+def sh_array_same(n):
+    # few distinct constants: the element count is the only large dimension
+    els = ", ".join(str(i % 5 + 1) for i in range(n))
+    tot = sum(i % 5 + 1 for i in range(n))
+    return ("var a = [%s]; var s = 0; for (var i = 0; i < a.length; i++) s = s + a[i]; var r = a.length * 1000000 + s + a[%d] * 0;" % (els, n - 1),
+            "r", float(n * 1000000 + tot), False)
+
+
+def sh_array_nested(n):
+    els = ", ".join("[%d]" % (i % 3) for i in range(n))
+    tot = sum(i % 3 for i in range(n))
+    return ("var a = [%s]; var s = 0; for (var i = 0; i < a.length; i++) s = s + a[i][0] + a[i].length; var r = a.length * 1000000 + s;" % els,
+            "r", float(n * 1000000 + tot + n), False)
+
+
+def sh_args_same(n):
+    args = ", ".join(str(i % 4 + 1) for i in range(n))
+    tot = sum(i % 4 + 1 for i in range(n))
+    return ("var fa = function(){ var s = 0; for (var i = 0; i < arguments.length; i++) s = s + arguments[i]; return s * 1000 + arguments.length; }; var r = fa(%s);" % args,
+            "r", float(tot * 1000 + n), False)
+
+
+def sh_new_args_same(n):
+    args = ", ".join(str(i % 4 + 1) for i in range(n))
+    return ("var C = function(){ this.n = arguments.length; this.last = arguments[arguments.length - 1]; }; var o = new C(%s); var r = o.n * 10 + o.last;" % args,
+            "r", float(n * 10 + ((n - 1) % 4 + 1)), False)
+
+
+def sh_method_args_same(n):
+    args = ", ".join(str(i % 4 + 1) for i in range(n))
+    return ("var o = { m: function(){ return arguments.length * 10 + arguments[0]; } }; var r = o.m(%s) + [].concat(%s).length * 100000;" % (args, args),
+            "r", float(n * 10 + 1 + n * 100000), False)
+
+
+def sh_object_same_values(n):
+    props = ", ".join("k%d: %d" % (i, i % 3) for i in range(n))
+    return ("var o = {%s}; var r = Object.keys(o).length * 1000 + o.k%d;" % (props, n - 1), "r", float(n * 1000 + (n - 1) % 3), False)
 
 
 def sh_object(n):
@@ -96,6 +143,8 @@ OPERAND_SHAPES = {
     "locals": sh_locals, "params": sh_params, "args": sh_args, "array-literal": sh_array, "object-literal": sh_object,
     "numeric-constants": sh_num_consts, "string-constants": sh_str_consts, "global-names": sh_globals,
     "functions": sh_functions, "captured-vars": sh_captured, "regex-literals": sh_regexes, "switch-cases": sh_switch,
+    "array-literal-few-constants": sh_array_same, "array-literal-nested": sh_array_nested, "args-few-constants": sh_args_same,
+    "new-args-few-constants": sh_new_args_same, "method-args-few-constants": sh_method_args_same, "object-literal-few-values": sh_object_same_values,
 }
 
 
@@ -130,6 +179,44 @@ def by_do_break(k):
 def by_after_filler_loop(k):
     # the loop sits *after* the filler: its own (backward and forward) targets are large
     return ("var x = 0; " + FILL * k + " var i = 0; while (i < 3) { i = i + 1; x = x + 1000000; }", "x", float(k + 3000000))
+
+
+def by_do_continue(k):
+    return ("var x = 0; var i = 0; do { i = i + 1; if (i === 2) continue; " + FILL * k + " } while (i < 3); x = x + 1000000;", "x", float(2 * k + 1000000))
+
+
+def by_while_continue(k):
+    return ("var x = 0; var i = 0; while (i < 3) { i = i + 1; if (i === 2) continue; " + FILL * k + " } x = x + 1000000;", "x", float(2 * k + 1000000))
+
+
+def by_for_notest_throw(k):
+    # a for loop without test clause, left by an exception (no break)
+    return ("var x = 0; try { for (var i = 0; ; i = i + 1) { if (i === 1) continue; if (i === 3) throw 5; " + FILL * k + " } } catch (e) { x = x + 1000000 * e; }", "x", float(2 * k + 5000000))
+
+
+def by_labelled_continue(k):
+    return ("var x = 0; L: for (var i = 0; i < 2; i = i + 1) { for (var j = 0; j < 2; j = j + 1) { if (j === 1) continue L; " + FILL * k + " } } x = x + 1000000;", "x", float(2 * k + 1000000))
+
+
+def by_forin_body(k):
+    return ("var x = 0; for (var key in {a: 1, b: 2, c: 3}) { if (key === 'b') continue; " + FILL * k + " if (key === 'c') break; } x = x + 1000000;", "x", float(2 * k + 1000000))
+
+
+def by_forof_body(k):
+    return ("var x = 0; for (var v of [1, 2, 3]) { if (v === 2) continue; " + FILL * k + " } x = x + 1000000;", "x", float(2 * k + 1000000))
+
+
+def by_try_finally_loop(k):
+    return ("var x = 0; for (var i = 0; i < 3; i = i + 1) { try { if (i === 1) continue; " + FILL * k + " if (i === 2) break; } finally { x = x + 0.25; } } x = x + 1000000;", "x", float(2 * k + 1000000) + 0.75)
+
+
+def by_nested_ifs(k):
+    half = k // 2
+    return ("var x = 0; if (x === 0) { " + FILL * half + " if (x > 0 || " + str(half) + " === 0) { " + FILL * (k - half) + " } else { x = -1; } } x = x + 1000000;", "x", float(k + 1000000))
+
+
+def by_ternary_big_arm(k):
+    return ("var x = 0; var f = function(){ " + FILL * k + " return 7; }; var r = (x === 0) ? f() : -1; var r2 = x + r;", "r2", float(k + 7))
 
 
 def by_try_throw(k):
@@ -173,6 +260,9 @@ BYTE_SHAPES = {
     "for-continue": by_for_continue, "do-break": by_do_break, "loop-after-filler": by_after_filler_loop,
     "try-throw": by_try_throw, "try-after-filler": by_try_after, "and-chain": by_logical_chain, "or-chain": by_or_chain,
     "switch-body": by_switch_body, "string-literal": by_string_literal, "plus-chain": by_plus_chain,
+    "do-continue": by_do_continue, "while-continue": by_while_continue, "for-notest-throw": by_for_notest_throw,
+    "labelled-continue": by_labelled_continue, "forin-body": by_forin_body, "forof-body": by_forof_body,
+    "try-finally-loop": by_try_finally_loop, "nested-ifs": by_nested_ifs, "function-body-call": by_ternary_big_arm,
 }
 
 PLACEMENTS = ["top", "function", "callback"]
@@ -310,7 +400,7 @@ def build(chk):
         for placement in PLACEMENTS:
             ns = OPERAND_NS
             if quick:
-                ns = [n for n in OPERAND_NS if n in (2, 128, 254, 255, 256, 257, 300, 513)]
+                ns = OPERAND_NS_QUICK
             for n in ns:
                 body, result, expected, toponly = fn(n)
                 if toponly == "toponly" and placement != "top":
